@@ -20,16 +20,16 @@ theorem no_fault_agrees : no_fault_agrees_stmt := E.no_fault_agrees
 
 /-! ### one call -/
 theorem finv_call : finv_call_stmt :=
-  B.finv_call_of_store_delTail (fun p hi first es seals hok k wf => A.finvS_call_store p hi first es seals hok k wf)
-    (fun p hi newMax hok k wf => C.finvS_call_delTail p hi newMax hok k wf)
+  B.finv_call_of_store_delTail (fun p hi first es seals hok pl => A.finvS_call_store p hi first es seals hok pl)
+    (fun p hi newMax hok pl => C.finvS_call_delTail p hi newMax hok pl)
 
 theorem call_view : call_view_stmt :=
-  B.call_view_of_store_delTail (fun p hi first es seals hok k wf => A.call_view_store p hi first es seals hok k wf)
-    (fun p hi newMax hok k wf => C.call_view_delTail p hi newMax hok k wf)
+  B.call_view_of_store_delTail (fun p hi first es seals hok pl => A.call_view_store p hi first es seals hok pl)
+    (fun p hi newMax hok pl => C.call_view_delTail p hi newMax hok pl)
 
 theorem call_disklog : call_disklog_stmt :=
-  B.call_disklog_of_store_delTail (fun p hi first es seals hok k wf => A.call_disklog_store p hi first es seals hok k wf)
-    (fun p hi newMax hok k wf => C.call_disklog_delTail p hi newMax hok k wf)
+  B.call_disklog_of_store_delTail (fun p hi first es seals hok pl => A.call_disklog_store p hi first es seals hok pl)
+    (fun p hi newMax hok pl => C.call_disklog_delTail p hi newMax hok pl)
 
 /-! ### restart -/
 theorem restart_total : restart_total_stmt := D.restart_total
